@@ -383,8 +383,20 @@ func (w *gwWorld) Exec(s gwStep) (map[string]any, bool) {
 		}
 		return map[string]any{"status": "ok", "stacks": st}, true
 	}
+	for _, f := range extraExec {
+		if o, ok := f(w, s); ok {
+			return o, true
+		}
+	}
 	return nil, false
 }
+
+// extraExec lets a property family add operations to the replayer from its own file
+// (append in an init function).
+var extraExec []func(w *gwWorld, s gwStep) (map[string]any, bool)
+
+// extraState lets a family add state comparisons (uploads, lock state, ...).
+var extraState []func(w *gwWorld, p gwPost, symBuckets, symKeys []string) []gwDiff
 
 // listVersions returns key -> entries (newest first as listed), following markers.
 func (w *gwWorld) listVersions(cl *s3c.Client, bucket string) (map[string][]gwVer, *s3c.Resp) {
@@ -630,6 +642,9 @@ func (w *gwWorld) CompareState(p gwPost, symBuckets []string, symKeys []string) 
 			_ = k
 			ds = append(ds, gwDiff{"unexpected-key-in-version-listing", "absent", "present"})
 		}
+	}
+	for _, f := range extraState {
+		ds = append(ds, f(w, p, symBuckets, symKeys)...)
 	}
 	return ds
 }
